@@ -152,7 +152,7 @@ def run(ck):
         walks = [ck.replay["steps"]]
     else:
         level = 5 if ck.thorough else 4
-        menu = '"full"' if ck.thorough else '"small"'
+        menu = '"small"'     # the graph uses the small menu of server lists, the simulated behaviours the full one
         nsim = 600 if ck.thorough else 60
         depth = 14 if ck.thorough else 10
         ts = in_bg("sim", lambda: ck.tlc("TunnelCtl", "MC_TunnelCtl_publish_sim.cfg", constants={"SimDepth": depth, "Menu": '"full"'},
@@ -174,7 +174,12 @@ def run(ck):
         ck.exhaustive = True   # of the bounded graph (every edge executed at least once)
 
     b = join(tb, "build")
-    recs = ck.drive(b, ["publish"], input_lines=[{"steps": [s["call"] for s in w]} for w in walks], timeout=1500)
+    # the identity the peer claims at each step is part of the input (so a replay repeats it)
+    for w in walks:
+        for st in w:
+            if "spoof" not in st:
+                st["spoof"] = ck.rng.choice(["none", "other", "other", "junk"])
+    recs = ck.drive(b, ["publish"], input_lines=[{"steps": [dict(s["call"], spoof=s["spoof"]) for s in w]} for w in walks], timeout=1500)
     byi = {x["i"]: x["o"] for x in recs if "i" in x}
     if len(byi) != len(walks):
         raise vf.Infra("driver answered %d of %d walks\n%s" % (len(byi), len(walks), getattr(ck, "last_stderr", "")[-2000:]))
@@ -236,7 +241,7 @@ def run(ck):
     if len(verdict) != len(order):
         raise vf.Infra("validator judged %d of %d steps" % (len(verdict), len(order)))
     names = {"onlyOwner": "a publish/unpublish/release succeeded for a hostname that is not registered to the caller",
-             "stores": "a successful publish did not leave, in slots 1..k, routes naming the caller's verified identity and the k distinct requested servers",
+             "stores": "a successful publish did not leave, in slots 1..k, routes naming the caller's verified identity and the k distinct requested servers (or it filled further slots)",
              "releases": "a successful release left a route, the registration or the custom-hostname binding behind",
              "foreign": "a request changed routes / registration / binding of a hostname that is not registered to the caller"}
     for n, k in enumerate(order):
@@ -253,7 +258,7 @@ def run(ck):
                              "%s; request=%s by %s (claimed identity: %s) outcome=%s pre=%s post=%s" % (
                                  names[clause], json.dumps(rec["call"]), rec["call"]["c"], o.get("spoof"), o.get("code"),
                                  json.dumps(rec["pre"]), json.dumps(rec["post"])),
-                             {"steps": [{"call": s["call"]} for s in prefix]})
+                             {"steps": [{"call": s["call"], "spoof": s["spoof"]} for s in prefix]})
     if differs:
         ck.notes.append("%d executed steps differ from the transcribed handlers of the model (judged by the statement only); first: %s"
                         % (differs, json.dumps(differ_example)))
